@@ -460,6 +460,39 @@ pub fn c15(ctx: &Ctx, rep: &mut Report) {
     }
     rep.exhaustive = Some(!ctx.quick());
     rep.count("format_strings_upto_len", max_all as u64);
+    // random formats over a wide Unicode alphabet: every character other than ~ and the six escapes
+    // is copied unchanged
+    let nu = ctx.share(4_000, 200_000);
+    for i in 0..nu {
+        let mut rng = ctx.rng("C15u", i);
+        let len = rng.below(24);
+        let mut f = String::new();
+        let mut ph = 0usize;
+        for _ in 0..len {
+            match rng.below(14) {
+                0 => {
+                    f.push('~');
+                    ph += 1;
+                }
+                1 => f.push_str(["\\n", "\\t", "\\r", "\\\\", "\\\"", "\\~"][rng.below(6)]),
+                2 => f.push(['\u{0}', '\u{1}', '\u{7}', '\u{1b}', '\u{7f}', '\r', '\n', '\t', '\u{b}', '\u{c}'][rng.below(10)]),
+                3 => f.push(['\u{85}', '\u{a0}', '\u{2028}', '\u{2029}', '\u{feff}', '\u{200b}', '\u{200d}', '\u{202e}', '\u{fffd}', '\u{fffe}'][rng.below(10)]),
+                4 => f.push(char::from_u32(0x1f300 + rng.below(0x300) as u32).unwrap_or('😀')),
+                5 => f.push(char::from_u32(0x300 + rng.below(0x70) as u32).unwrap_or('\u{301}')),
+                6 => f.push(char::from_u32(0x4e00 + rng.below(0x5000) as u32).unwrap_or('中')),
+                7 => f.push(char::from_u32(0x10000 + rng.below(0xfffff) as u32).unwrap_or('𝔘')),
+                8 => f.push(['%', '{', '}', '$', '#', '\'', '`', '&', '<', '>'][rng.below(10)]),
+                _ => f.push(char::from_u32(0x20 + rng.below(0x5f) as u32).filter(|c| *c != '\\' && *c != '"' && *c != '~').unwrap_or('x')),
+            }
+        }
+        // mostly the matching number of arguments
+        let nargs = if rng.chance(1, 6) { rng.below(4) } else { ph.min(3) };
+        if ph > 3 && nargs == 3 {
+            // more placeholders than arguments: a legitimate failing case
+        }
+        c15_format_case(rep, &f, nargs);
+        rep.bump("c15-unicode-formats", if ph == nargs { "matching" } else { "mismatching" });
+    }
     // rendering of nested values
     let n = ctx.share(5_000, 300_000);
     for i in 0..n {
